@@ -232,6 +232,20 @@ def search_scope_rules(F, res):
     res.ob("R5", "search_scope/whole-graph-unless-local", "a definition is searched in the whole package graph unless it is a local (then: its file)",
            set(made) <= {"SearchScope::empty", "SearchScope::single_file", "SearchScope::package_graph"} and "SearchScope::package_graph" in made and local_only,
            where=ss.loc(), how="scopes built: %s; single_file only for locals: %s" % (made, local_only))
+    # ... and the definition's own neighbourhood is searched whether or not the package graph knows it: on the non-local path
+    # search_scope adds entries whose file ids come out of the source root of Definition::module's file
+    own = False
+    for b, t in ss.calls():
+        c = FL.short(callee(t) or callee_def(t) or "")
+        full = (t.get("fn") or {}).get("full") or ""
+        if c.rsplit("::", 1)[-1] in ("insert", "entry", "extend") and ("HashMap" in full or "IntMap" in full):
+            for a in t["args"][1:2]:
+                dep = FL.depends(F, ss, dss, a)
+                if any(x.endswith("file_source_root") for x in dep["calls"]) and any(x.endswith("Definition::module") for x in dep["calls"]):
+                    own = True
+    res.ob("R7", "search_scope/own-source-root", "the scope searched for a non-local definition contains the module files of the source root the definition "
+           "itself lives in (a file outside every package of the graph - a scratch file, dev/, a project whose gleam.toml cannot be read - still "
+           "lists its own declarations and uses)", own, where=ss.loc(), how="entries added from source_root(file_source_root(Definition::module(..))): %s" % own)
     sr = F.fn("ide::def::search::FindUsages::search")
     base = any(FL.short(callee(t) or callee_def(t)) == "Definition::search_scope" for b, t in sr.calls())
     res.ob("R5", "search/uses-definition-scope", "FindUsages::search scans Definition::search_scope", base, where=sr.loc(), how=str(base))
